@@ -8,6 +8,15 @@
 // initial guess captured just before Eigen runs are printed as exact "<mantissa> <exp2>" and
 // must equal what the Lean model (over Rat) prints for the same addNet/solve calls.
 //
+// Approximate correspondence (hook H2, stream a<k>): *non-dyadic* net weights and penalty strengths (0.1, 0.3, 7.3, k/1000,
+// ...), ε / cutoff also non-dyadic (0.7, 1.3, ...), arbitrary small pin positions (placements integers, offsets and fixed
+// positions multiples of 1/2, so that every position / distance / max / min / offset difference is exact in binary32
+// and only the operations that involve a weight round).  Dimensions, the triplet pattern (rows, columns, order) and the
+// initial guess must be equal to the model's exactly; the captured single-precision values are sent to the Lean driver,
+// which compares them with the model's exact rationals within a bound derived from the number of rounded float
+// operations per entry ((1+2^-24)^K − 1 relative for a matrix entry, K = 1..3 by variant; (1+2^-24)^(K+1+n_r) − 1 times
+// the magnitude bound D_r·5C of the n_r summed terms for a rhs entry — see lean/Driver/C17.lean) and answers `apx ok`.
+//
 // Direct oracle (independent code, real solver through NetModel's public interface):
 //   S2  scaling all net weights and penalty strengths by 2^k (k in -16..8) gives bitwise-equal solutions;
 //   SN  scaling by 2.5 or 7 gives solutions equal within a tolerance derived from the system
@@ -33,7 +42,9 @@
 // placement area, degenerate nets interleaved, non-uniform float weights) → NetModel::xTopology /
 // yTopology → the stored net list read through the public accessors (nbNets, nbPins, pinCell,
 // pinOffset, netWeight), printed exactly, must equal the Lean model `NetTopology.topology` of the
-// same circuit (coordinates are small integers, so every float conversion is exact).
+// same circuit (stream t<k>: coordinates are small integers, so every float conversion is exact; stream u<k>: the same
+// circuits translated by ±[2^22, 2^26) in x and y, with some pin offsets and cell sizes of that magnitude, so that
+// (float)pos, (float)areaMin/areaMax and offset - 0.5f*size really round — the model rounds with Legalize.f32).
 #include <algorithm>
 #include <cmath>
 #include <cstring>
@@ -369,6 +380,47 @@ static float anyWeight(vh::Rng &g) {
   return (float)g.range(1, 4000) / 1000.0f;
 }
 
+// Approximate stream: non-dyadic weights / strengths / ε / cutoff; positions small multiples of 1/2 (exact arithmetic).
+static Case genApprox(vh::Rng &g, vh::Out &out) {
+  Case c;
+  c.nbCells = g.range(1, 6);
+  c.mode = g.range(0, 4);
+  static const std::vector<float> epss = {0.5f, 1.0f, 2.0f, 0.7f, 1.3f, 3.0f, 0.1f};
+  c.eps = g.pick(epss);
+  for (int i = 0; i < c.nbCells; ++i) c.pl.push_back((float)g.range(-8, 8));
+  int nn = g.range(1, 8);
+  for (int k = 0; k < nn; ++k) {
+    RawNet n;
+    n.five = g.chance(1, 4);
+    if (n.five) {
+      n.mn = (float)g.range(-20, 20) / 2.0f;
+      n.mx = g.chance(1, 4) ? n.mn : n.mn + (float)g.range(1, 16) / 2.0f;
+    }
+    int own = g.range(n.five ? 1 : 2, 4);
+    for (int i = 0; i < own; ++i) {
+      if (!n.five && g.chance(1, 4)) { n.cells.push_back(-1); n.offs.push_back((float)g.range(-20, 20) / 2.0f); }
+      else { n.cells.push_back(g.range(0, c.nbCells - 1)); n.offs.push_back((float)g.range(-8, 8) / 2.0f); }
+    }
+    n.w = g.chance(1, 12) ? 0.0f : anyWeight(g);
+    c.nets.push_back(n);
+    int nb = own + (n.five ? (n.mx == n.mn ? 1 : 2) : 0);
+    out.count(std::string("approx_net_pins_") + std::to_string(std::min(nb, 6)));
+    float m = std::ldexp(n.w, 10);
+    if (n.w != 0 && m != std::floor(m)) out.count("approx_net_weight_non_dyadic");
+    if (n.w > 0 && n.w < 1) out.count("approx_net_weight_below_1");
+  }
+  if (c.mode != 0 && g.chance(1, 2)) {
+    c.hasPen = true;
+    static const std::vector<float> cuts = {0.5f, 1.0f, 2.0f, 0.7f, 4.0f, 1.7f};
+    c.cutoff = g.pick(cuts);
+    for (int i = 0; i < c.nbCells; ++i) {
+      c.target.push_back(c.pl[i] + (float)g.range(-12, 12) / 2.0f);
+      c.strength.push_back(g.chance(1, 6) ? 0.0f : anyWeight(g));
+    }
+  }
+  return c;
+}
+
 // General case for the oracles: arbitrary float weights / offsets / placements.
 static Case genGeneral(vh::Rng &g, vh::Out &out, int forceMode) {
   Case c;
@@ -422,7 +474,7 @@ static Case genGeneral(vh::Rng &g, vh::Out &out, int forceMode) {
 }
 
 // ---------------------------------------------------------------------------------- streams
-static void emitOps(vh::Out &out, const std::string &id, const Case &c) {
+static void emitOpsHead(vh::Out &out, const std::string &id, const Case &c) {
   out.ops << "case " << id << "\n";
   out.ops << "cfg " << c.nbCells << " " << MODE_NAME[c.mode] << " " << exactFloat(c.eps) << "\n";
   out.ops << "pl " << c.pl.size();
@@ -439,6 +491,9 @@ static void emitOps(vh::Out &out, const std::string &id, const Case &c) {
     for (int i = 0; i < c.nbCells; ++i) out.ops << " " << exactFloat(c.target[i]) << " " << exactFloat(c.strength[i]);
     out.ops << "\n";
   }
+}
+static void emitOps(vh::Out &out, const std::string &id, const Case &c) {
+  emitOpsHead(out, id, c);
   out.ops << "asm\n";
 }
 
@@ -457,6 +512,26 @@ static void emitImpl(vh::Out &out, const std::string &id, const Captured &cap) {
   in << "init";
   for (float v : cap.initial) in << " " << exactFloat(v);
   out.impl << in.str() << "\n";
+}
+
+static void emitApprox(vh::Out &out, const std::string &id, const Case &c, const Captured &cap) {
+  emitOpsHead(out, id, c);
+  out.ops << "apx " << cap.rows.size();
+  for (size_t k = 0; k < cap.rows.size(); ++k) out.ops << " " << cap.rows[k] << " " << cap.cols[k] << " " << exactFloat(cap.values[k]);
+  out.ops << " " << cap.rhs.size();
+  for (float v : cap.rhs) out.ops << " " << exactFloat(v);
+  out.ops << "\n";
+  out.impl << "case " << id << "\n";
+  out.impl << "dim " << cap.nbCells << " " << cap.matSize << "\n";
+  std::ostringstream os;
+  os << "pat " << cap.rows.size();
+  for (size_t k = 0; k < cap.rows.size(); ++k) os << " " << cap.rows[k] << " " << cap.cols[k];
+  out.impl << os.str() << "\n";
+  std::ostringstream in;
+  in << "init";
+  for (float v : cap.initial) in << " " << exactFloat(v);
+  out.impl << in.str() << "\n";
+  out.impl << "apx ok " << cap.rows.size() << " " << cap.rhs.size() << "\n";
 }
 
 static bool bitwiseEqual(const std::vector<float> &a, const std::vector<float> &b) {
@@ -806,9 +881,75 @@ static void emitTopology(std::ostream &os, const NetModel &m, const char *axis) 
   }
 }
 
-static void topologyCase(vh::Out &out, const std::string &id, vh::Rng &g) {
+// a value of magnitude in [2^22, 2^26), either sign, usually odd above 2^24 (so that its float conversion rounds)
+static int largeValue(vh::Rng &g) {
+  int e = g.range(22, 25);
+  int v = g.range(1 << e, (1 << (e + 1)) - 1);
+  return g.chance(1, 2) ? v : -v;
+}
+
+// Move the circuit to large coordinates: cells and rows translated by (dx, dy), some pin offsets and one cell size
+// replaced by values of that magnitude.  Nothing else changes (net list, weights, which cells are fixed).
+static void enlarge(Circuit &c, vh::Rng &g, vh::Out &out) {
+  int dx = largeValue(g), dy = largeValue(g);
+  std::vector<int> xs = c.cellX(), ys = c.cellY();
+  for (int &v : xs) v += dx;
+  for (int &v : ys) v += dy;
+  c.setCellX(xs);
+  c.setCellY(ys);
+  std::vector<Row> rows = c.rows();
+  for (Row &r : rows) { r.minX += dx; r.maxX += dx; r.minY += dy; r.maxY += dy; }
+  c.setRows(rows);
+  std::vector<int> xo = c.pinXOffsets_, yo = c.pinYOffsets_;
+  for (size_t i = 0; i < xo.size(); ++i) {
+    if (g.chance(1, 5)) xo[i] = largeValue(g);
+    if (g.chance(1, 5)) yo[i] = largeValue(g);
+  }
+  c.setNets(c.netLimits_, c.pinCells_, xo, yo, c.netWeights_);
+  if (g.chance(1, 3) && c.nbCells() > 0) {
+    int cell = g.range(0, c.nbCells() - 1);
+    std::vector<int> w = c.cellWidth(), h = c.cellHeight();
+    if (g.chance(1, 2)) w[cell] = std::abs(largeValue(g)); else h[cell] = std::abs(largeValue(g));
+    c.setCellWidth(w);
+    c.setCellHeight(h);
+    out.count("topo_large_case_with_large_cell_size");
+  }
+}
+
+// measured: how many int -> float conversions of xTopology/yTopology are inexact on this circuit
+static void countInexact(const Circuit &c, vh::Out &out) {
+  auto inexact = [](long long v) { return (long long)(float)v != v; };
+  long long nFixed = 0, nOff = 0, nSize = 0;
+  for (int i = 0; i < c.nbNets(); ++i) {
+    for (int j = 0; j < c.nbPinsNet(i); ++j) {
+      int cell = c.pinCell(i, j);
+      if (c.isFixed(cell)) {
+        if (inexact((long long)c.x(cell) + c.pinXOffset(i, j))) ++nFixed;
+        if (inexact((long long)c.y(cell) + c.pinYOffset(i, j))) ++nFixed;
+      } else {
+        if (inexact(c.pinXOffset(i, j))) ++nOff;
+        if (inexact(c.pinYOffset(i, j))) ++nOff;
+        if (inexact(c.placedWidth(cell))) ++nSize;
+        if (inexact(c.placedHeight(cell))) ++nSize;
+      }
+    }
+  }
+  Rectangle a = c.computePlacementArea();
+  int nArea = inexact(a.minX) + inexact(a.maxX) + inexact(a.minY) + inexact(a.maxY);
+  out.count("topo_large_inexact_fixed_pin_positions", nFixed);
+  out.count("topo_large_inexact_pin_offsets", nOff);
+  out.count("topo_large_inexact_cell_sizes", nSize);
+  out.count("topo_large_inexact_area_bounds", nArea);
+  if (nFixed + nOff + nSize + nArea > 0) out.count("topo_large_case_with_inexact_conversion");
+}
+
+static void topologyCase(vh::Out &out, const std::string &id, vh::Rng &g, bool large) {
   bool shiftVisible = false;
-  Circuit c = genNetCircuit(g, out, false, "topo", shiftVisible);
+  Circuit c = genNetCircuit(g, out, false, large ? "topoL" : "topo", shiftVisible);
+  if (large) {
+    enlarge(c, g, out);
+    countInexact(c, out);
+  }
   std::string in = vc::circuitString(c);
   vh::setCase(id, in);
   std::ostringstream impl;
@@ -823,7 +964,7 @@ static void topologyCase(vh::Out &out, const std::string &id, vh::Rng &g) {
   out.ops << "case " << id << "\n" << in << "topo x\ntopo y\n";
   out.impl << impl.str();
   out.evaluations++;
-  out.count("topo_cases");
+  out.count(large ? "topo_large_cases" : "topo_cases");
   if (shiftVisible) out.nontrivial(vh::hashStr("t" + in));
   if (out.samples.size() < 4) out.sample("topology: " + in);
 }
@@ -882,12 +1023,15 @@ int main(int argc, char **argv) {
   vh::installCrashHandler(&out);
   out.rule =
       "correspondence: dyadic NetModel instances (1-6 cells, 1-8 nets of 2-4 pins incl. fixed pins, all five create* variants, optional "
-      "penalty), assembled system captured by hook H2 and compared exactly; oracle: general float instances (weights 0.1..7.3 incl. "
+      "penalty), assembled system captured by hook H2 and compared exactly; approximate correspondence: the same shapes with "
+      "non-dyadic weights / strengths / eps / cutoff and arbitrary half-integer pin positions, pattern compared exactly and values "
+      "within the rounding bound derived from the float operation count; oracle: general float instances (weights 0.1..7.3 incl. "
       "fractional below 1, float offsets/placements, eps, penalties) solved by the real CG solver; non-trivial = the derived tolerance "
       "of the non-dyadic scaling / least-squares comparison is below 1% of the coordinate scale (so a mis-weighted net would be seen), "
       "or a weight<1 gadget; topology stream / oracle CL: circuits (1-13 cells incl. pads inside and outside the placement area, all "
       "orientations, 1-30 nets: two-pin, repeated cells, pads, larger nets, with dangling-pin / pads-only / empty nets interleaved, "
-      "non-uniform float weights) through NetModel::xTopology/yTopology, non-trivial = a degenerate net precedes a kept net whose "
+      "non-uniform float weights) through NetModel::xTopology/yTopology, a second stream with the circuit translated to "
+      "coordinates of magnitude 2^22..2^26 and large pin offsets / cell sizes (int -> float conversions round), non-trivial = a degenerate net precedes a kept net whose "
       "weight differs from the weight at its NetModel index (and, for CL, the derived tolerance is below 1% of the scale); "
       "distinct by the canonical text of the instance";
   out.count(HAS_H2 ? "hook_H2_present" : "hook_H2_absent");
@@ -940,11 +1084,42 @@ int main(int argc, char **argv) {
     }
   }
 
+  // --- approximate correspondence on non-dyadic weights ---------------------------------------------
+  long long na = a.thorough() ? 40000 : (a.search() ? 0 : 3000);
+  if (HAS_H2) {
+    for (long long i = 0; i < na; ++i) {
+      vh::Rng g = vh::Rng::forCase(a.seed, 8000000 + i);
+      Case c = genApprox(g, out);
+      std::string id = "a" + std::to_string(i);
+      vh::setCase(id, c.str(true));
+      armHook(true);
+      solveCase(c, 1.0f);
+      Captured cap = g_cap;
+      armHook(false);
+      if (!cap.valid) { out.fail(id, "hook H2 was not called by the solve", c.str(true)); continue; }
+      emitApprox(out, id, c, cap);
+      out.evaluations++;
+      out.count(std::string("approx_mode_") + MODE_NAME[c.mode]);
+      if (c.hasPen) out.count("approx_with_penalty");
+      if (cap.matSize > cap.nbCells) out.count("approx_with_star_variables");
+      long long rounded = 0;
+      for (float v : cap.values) { float m = std::ldexp(v, 12); if (m != std::floor(m)) ++rounded; }
+      out.count("approx_matrix_entries", (long long)cap.values.size());
+      out.count("approx_matrix_entries_not_multiple_of_2^-12", rounded);
+      if (i < 2) out.sample("approx: " + c.str(true));
+    }
+  }
+
   // --- topology correspondence + least squares through the Circuit path ----------------------------
   long long nt = a.thorough() ? 20000 : (a.search() ? 0 : 1500);
   for (long long i = 0; i < nt; ++i) {
     vh::Rng g = vh::Rng::forCase(a.seed, 5000000 + i);
-    topologyCase(out, "t" + std::to_string(i), g);
+    topologyCase(out, "t" + std::to_string(i), g, false);
+  }
+  long long nu = a.thorough() ? 10000 : (a.search() ? 0 : 800);
+  for (long long i = 0; i < nu; ++i) {
+    vh::Rng g = vh::Rng::forCase(a.seed, 7000000 + i);
+    topologyCase(out, "u" + std::to_string(i), g, true);
   }
   long long nq = a.thorough() ? 20000 : (a.search() ? 8000 : 1500);
   for (long long i = 0; i < nq; ++i) {
